@@ -140,6 +140,15 @@ def gen_count(rng, uni: qgen.Universe, ev: str, uses: List[Tuple[str, str]], nva
 def gen_ex(rng, uni, ev, d, uses, nvar, top=False, cmp_ok=False):
     k = rng.random()
     if d <= 0 or k < 0.5:
+        if rng.random() < 0.15:
+            # an element by position: e.Coll("bank")[i].m() - bounds-checked, undefined when the collection is shorter
+            name = rng.choice(list(uni.colls))
+            bank = rng.choice(["b1", "b2"])
+            uses.append((name, bank))
+            ct, _ = uni.colls[name]
+            i = rng.choice([0, 0, 1, 2])
+            m = rng.choice(["pt", "eta", "phi", "m"])
+            return f'{ev}.{name}("{bank}")[{i}].{m}()', ["idx", name.lower(), ct, bank, uni.backend == "atlas", i, m]
         if top or rng.random() < 0.8:
             return gen_count(rng, uni, ev, uses, nvar)
         z = rng.choice([0, 1, 2, 3])
